@@ -835,7 +835,8 @@ def check_analysis_faults():
         raise RuntimeError("injected failure at the ONNX boundary")
 
     for forms, outs in analysis_fault_cases():
-        for variant in ("plain", "initializers_without_type", "lazy_raises", "large_and_small_initializers"):
+        for variant in ("plain", "initializers_without_type", "lazy_raises", "large_and_small_initializers", "initializer_declared_type_differs_from_tensor",
+                        "after_analysis_and_initializer_removal", "after_analysis_and_unused_removal_pass", "after_analysis_and_input_removal"):
             for pname, mk in (("Checker", lambda: P.CheckerPass()), ("Checker(full)", lambda: P.CheckerPass(full_check=True)), ("ShapeInference", lambda: P.ShapeInferencePass()),
                               ("ShapeInference(non-strict)", lambda: P.ShapeInferencePass(check_type=False, strict_mode=False))):
                 for fault in ("none", "api_raises"):
@@ -858,6 +859,31 @@ def check_analysis_faults():
                         model.graph.initializers.clear()
                         for v in [big] + first:
                             model.graph.initializers.add(v)
+                    elif variant == "initializer_declared_type_differs_from_tensor":
+                        # the value says DOUBLE, its tensor holds FLOAT (constructors and the mapping interface accept this)
+                        model.graph.initializers["w3"].type = ir.TensorType(ir.DataType.DOUBLE)
+                    elif variant.startswith("after_analysis_and_"):
+                        # an earlier history on the same object: an analysis pass ran, then something left the graph
+                        try:
+                            mk()(model)
+                        except Exception:  # noqa: BLE001
+                            pass
+                        if variant == "after_analysis_and_initializer_removal":
+                            unused = [k for k, v in model.graph.initializers.items() if not v.uses() and not v.is_graph_output() and not v.is_graph_input()]
+                            for k in unused[:1]:
+                                del model.graph.initializers[k]
+                            if not unused:
+                                continue
+                        elif variant == "after_analysis_and_unused_removal_pass":
+                            P.RemoveUnusedNodesPass()(model)
+                        else:
+                            extra_in = ir.Value(name="c14_extra_input", type=ir.TensorType(ir.DataType.FLOAT), shape=ir.Shape([2]))
+                            model.graph.inputs.append(extra_in)
+                            try:
+                                mk()(model)
+                            except Exception:  # noqa: BLE001
+                                pass
+                            model.graph.inputs.remove(extra_in)
                     n += 1
                     before = c03.full_snapshot(model)
                     init_order = list(model.graph.initializers)
@@ -877,6 +903,9 @@ def check_analysis_faults():
                     after = c03.full_snapshot(model)
                     changed = before != after or init_order != list(model.graph.initializers) or inputs != [v.name for v in model.graph.inputs]
                     must_be_unchanged = pname.startswith("Checker") or exc is not None or (res is not None and res.modified is False)
+                    if exc is not None and fault == "none" and not isinstance(exc, ir.passes.PassError) and type(exc).__name__ in ("AssertionError", "KeyError", "AttributeError", "IndexError"):
+                        found.setdefault(f"analysis_pass_fails_internally|{pname}|{variant}", {"seed": (forms, outs), "path": [pname], "clause": "analysis_pass_fails_internally",
+                                                                                              "detail": {"variant": variant, "raised": repr(exc)[:120]}})
                     if changed and must_be_unchanged:
                         from mc.props import c13
 
